@@ -15,7 +15,7 @@ BOUNDS = {
     'thorough': 'trees with <= 6 nodes; every column of <= 4 letters (475 254) x rows {1,1048576} x 4 patterns x 2 cases and '
                 'every row 1..1048576 at columns {A,Z,AA,XFD}; ranges over an 8x8 grid',
 }
-ASSUMPTIONS = ['row 0 / leading-zero rows are not demanded (see C19)',
+ASSUMPTIONS = ['row 0 / leading-zero rows are not cell references (see C19): A0, A01 are ordinary names',
                'a range cell label must spell the cell\'s own coordinates; its $ markers must agree with the is_absolute '
                'flags of the row/column parts it carries',
                'bijective base-26 reference = enumeration order of itertools.product over A..Z']
